@@ -7,6 +7,7 @@ import (
 	"math"
 	"math/rand"
 	"os"
+	"path/filepath"
 	"sort"
 	"sync"
 	"testing"
@@ -349,6 +350,42 @@ func drivePid(rec *Recorder, env *Env, r *rand.Rand) {
 		time.Sleep([]time.Duration{0, time.Millisecond, time.Second, time.Hour}[r.Intn(4)])
 	}
 	rec.Emit(Ev{"ev": "PidRange", "gains": fmt.Sprintf("%g/%g/%g", gp, gi, gd), "vals": rv})
+	// saturation: gains of one sign and a finite reading so far from the set point that the term is beyond 0..1 by many
+	// orders of magnitude - the curve value is 255 when the term is positive, 0 when it is negative (clamped, then scaled)
+	sid3 := uniq("ps")
+	big := []float64{1e18, 1e25, 1e300, -1e18, -1e25, -1e300, math.MaxFloat64 / 4}[r.Intn(7)]
+	// (a PID curve takes the sensor's current reading, not its average: a command sensor can report any finite number)
+	script := filepath.Join(env.Dir, sid3+".sh")
+	writeScript(script, fmt.Sprintf("echo %g\n", big))
+	s3, err := sensors.NewSensor(configuration.SensorConfig{ID: sid3, Cmd: &configuration.CmdSensorConfig{Exec: script}})
+	must(err)
+	s3.SetMovingAvg(big)
+	sensors.RegisterSensor(s3)
+	sign := []float64{-1, 1}[r.Intn(2)]
+	c3 := mkCurve(configuration.CurveConfig{ID: uniq("pidsat"), PID: &configuration.PidCurveConfig{Sensor: sid3, SetPoint: 60,
+		P: sign * 0.05, I: sign * 0.005, D: sign * 0.001}})
+	var sv []int
+	okAll := true
+	for k := 0; k < 4; k++ {
+		v, err := c3.Evaluate()
+		for retry := 0; retry < 3 && err != nil; retry++ { // (the sensor is a real command: it may fail on a loaded machine)
+			v, err = c3.Evaluate()
+		}
+		if err != nil {
+			okAll = false
+			break
+		}
+		sv = append(sv, v, c3.CurrentValue())
+		time.Sleep(time.Second)
+	}
+	if !okAll {
+		return
+	}
+	want := 0
+	if sign*(60-big/1000) > 0 {
+		want = 255
+	}
+	rec.Emit(Ev{"ev": "PidSat", "sign": int(sign), "hot": big > 0, "want": want, "vals": sv})
 }
 
 // TestDriveC07Ctl: the real controller with the direct algorithm swept over the curve values 0..255
